@@ -223,6 +223,76 @@ fn c07_send_pixels_bounded() {
     kani::assert(d[0] && d[1] && d[2] && d[3], "C07: DC high for pixel data");
 }
 
+/// pixel words in order for three-word pixels (Rgb666 on the 8-bit bus): 2 pixels x 3 words, any values incl. equal
+/// consecutive pixels and pixels whose first and last word coincide
+#[kani::proof]
+#[kani::unwind(5)]
+fn c07_send_pixels_3word_bounded() {
+    let levels: u8 = kani::any();
+    let p = Port::new(levels as u16);
+    let mut bus = bus8(&p);
+    bus.last = if kani::any() { Some(levels) } else { None };
+    let mut pi = ParallelInterface::new(bus, DcPin(&p), WrPin(&p));
+    let px: [[u8; 3]; 2] = kani::any();
+    assert!(pi.send_pixels(px).is_ok());
+    let l = p.latched.get();
+    kani::assert(p.n_latched.get() == 6, "C07: number of write strobes for two three-word pixels");
+    let i: usize = kani::any();
+    kani::assume(i < 6);
+    kani::assert(l[i] == px[i / 3][i % 3] as u16, "C07: C05: three-word pixel words latched in order");
+    kani::assert(p.latched_dc.get()[i], "C07: DC high for pixel data");
+    kani::cover!(px[0] == px[1] && px[0][0] == px[0][2] && px[0][0] != px[0][1]);
+}
+
+/// repeated three-word pixel, count <= 2: count * 3 latches of the right words (uniform and non-uniform pixels)
+#[kani::proof]
+#[kani::unwind(8)]
+fn c07_send_repeated_pixel_3word_bounded() {
+    let levels: u8 = kani::any();
+    let p = Port::new(levels as u16);
+    let mut bus = bus8(&p);
+    bus.last = if kani::any() { Some(levels) } else { None };
+    let mut pi = ParallelInterface::new(bus, DcPin(&p), WrPin(&p));
+    let px: [u8; 3] = kani::any();
+    let count: u32 = kani::any();
+    kani::assume(count <= 2);
+    assert!(pi.send_repeated_pixel(px, count).is_ok());
+    kani::assert(p.n_latched.get() == 3 * count as usize, "C07: number of words for a repeated three-word pixel");
+    let l = p.latched.get();
+    let i: usize = kani::any();
+    kani::assume(i < 3 * count as usize);
+    kani::assert(l[i] == px[i % 3] as u16, "C07: C05: repeated three-word pixel words");
+    kani::cover!(px[0] == px[2] && px[0] != px[1] && count == 2);
+    kani::cover!(px[0] == px[1] && px[1] == px[2] && count == 2);
+}
+
+/// two calls in a row on one interface (state carried between calls: bus cache, anything a change adds): the words latched
+/// by the second call are its own, whatever the first call was
+#[kani::proof]
+#[kani::unwind(6)]
+fn c07_call_sequence_bounded() {
+    let levels: u8 = kani::any();
+    let p = Port::new(levels as u16);
+    let mut bus = bus8(&p);
+    bus.last = if kani::any() { Some(levels) } else { None };
+    let mut pi = ParallelInterface::new(bus, DcPin(&p), WrPin(&p));
+    let mut step = 0;
+    while step < 2 {
+        let n0 = p.n_latched.get();
+        let px: [u8; 2] = kani::any();
+        if kani::any() {
+            assert!(pi.send_repeated_pixel(px, 1).is_ok());
+        } else if kani::any() {
+            assert!(pi.send_pixels([px]).is_ok());
+        } else {
+            assert!(pi.send_command(px[0], &[px[1]]).is_ok());
+        }
+        let l = p.latched.get();
+        kani::assert(p.n_latched.get() == n0 + 2 && l[n0] == px[0] as u16 && l[n0 + 1] == px[1] as u16, "C07: C05: words of a call that follows another call");
+        step += 1;
+    }
+}
+
 /// repeated pixel, count <= 2, N = 2 (all-same words take the strobe-only path): count*N latches of the right words
 #[kani::proof]
 #[kani::unwind(6)]
